@@ -13,12 +13,22 @@ Variable S : Type.
 Variable nxt : S -> option bytes * S.
 Variable sabs : S -> bytes.        (* all bytes the source will still yield, concatenated *)
 Variable smeas : S -> nat.         (* number of items the source can still yield *)
-Variable cs F T : nat.             (* T = total number of bytes of the stream *)
+(* The contract is relative to a predicate [SP] on source states that [nxt] preserves (a
+   delimited child reads from its parent's suspended generator, which conforms only in states
+   satisfying the parent's invariants); [SD] is whatever is known about a source state after
+   it has reported its end.  The top level takes both to be [fun _ => True]. *)
+Variable SP : S -> Prop.
+Variable SD : S -> Prop.
+(* F = the fuel of the model's loops; B <= F = the bound the invariant keeps on the number
+   of source items (a child reader needs 3 more than its parent); T = total number of bytes *)
+Variable cs F B T : nat.
 Hypothesis cs_pos : 0 < cs.
+Hypothesis HBF : B <= F.
 (* a conforming async iterator *)
-Hypothesis Hnxt : forall s, match nxt s with
-                            | (Some c, s') => sabs s = c ++ sabs s' /\ smeas s' < smeas s
-                            | (None, s') => sabs s = []
+Hypothesis Hnxt : forall s, SP s ->
+                            match nxt s with
+                            | (Some c, s') => sabs s = c ++ sabs s' /\ smeas s' < smeas s /\ SP s'
+                            | (None, s') => sabs s = [] /\ SP s' /\ SD s'
                             end.
 
 (* bytes not yet yielded by the _iter_normalized generator *)
@@ -36,14 +46,18 @@ Definition aabs (st : astate S) : bytes := skipn (abpos st) (abuf st) ++ pending
    - clause 6 asks for [smeas + 3 <= F] (the draft had [smeas < F]): a read may see two
      buffered items, then one item per source item, then the final partial chunk;
    - clause 7 [2 <= F] is new: the two buffered items must be served even when the source
-     generator has already finished. *)
+     generator has already finished;
+   - clauses 6 and 7 bound by [B <= F], clause 8 [SP (asrc st)] and clause 9 (a finished
+     _iter_normalized has seen its source end: [SD]) are new with the relativised contract. *)
 Definition AInv (st : astate S) : Prop :=
   ablen st = length (abuf st) /\ abpos st <= ablen st /\
   consumed st + length (pending st) = T /\
   ablen st - abpos st <= consumed st /\
   (exhausted st = true <-> nph S st = NDone) /\
-  (nph S st = NRun -> smeas (asrc st) + 3 <= F) /\
-  2 <= F.
+  (nph S st = NRun -> smeas (asrc st) + 3 <= B) /\
+  2 <= B /\
+  SP (asrc st) /\
+  (nph S st <> NRun -> SD (asrc st)).
 
 (* number of items the normalized generator can still yield *)
 Definition need (st : astate S) : nat :=
@@ -51,9 +65,10 @@ Definition need (st : astate S) : nat :=
 
 (* ------------------------------------------------------------------ 1. _iter_normalized *)
 Lemma norm_loop_spec : forall fuel st acc s o st',
-  smeas s < fuel ->
+  smeas s < fuel -> SP s ->
   norm_loop S nxt cs fuel st acc s = (o, st') ->
   abuf st' = abuf st /\ ablen st' = ablen st /\ abpos st' = abpos st /\
+  SP (asrc st') /\ (nph S st' <> NRun -> SD (asrc st')) /\
   match o with
   | Some c => c <> [] /\ consumed st' = consumed st + length c /\
               exhausted st' = exhausted st /\ acc ++ sabs s = c ++ pending st' /\
@@ -62,24 +77,25 @@ Lemma norm_loop_spec : forall fuel st acc s o st',
             nph S st' = NDone
   end.
 Proof.
-  induction fuel as [|f IH]; intros st acc s o st' Hf H; [lia|].
-  cbn [norm_loop] in H. pose proof (Hnxt s) as Hs.
+  induction fuel as [|f IH]; intros st acc s o st' Hf HSP H; [lia|].
+  cbn [norm_loop] in H. pose proof (Hnxt s HSP) as Hs.
   destruct (nxt s) as [[item|] s1] eqn:En.
-  - destruct Hs as [Hab Hm].
+  - destruct Hs as (Hab & Hm & HSP1).
     destruct (Nat.leb_spec cs (length acc)) as [Hle|Hgt].
     + inversion H; subst o st'; clear H. unfold pending, need. cbn [abuf ablen abpos consumed exhausted nph nacc asrc].
       repeat split; auto.
+      * intros Hx. contradiction.
       * intros ->. simpl in Hle. lia.
       * rewrite Hab. reflexivity.
       * discriminate.
-    + apply IH in H; [|lia]. destruct H as (Hb & Hl & Hp & Ho).
+    + apply IH in H; [|lia|exact HSP1]. destruct H as (Hb & Hl & Hp & HSP' & HSD' & Ho).
       repeat split; auto. destruct o as [c|].
       * destruct Ho as (Hc & Hco & Hex & Hpe & Hne & Hnd). repeat split; auto.
         -- rewrite <- Hpe, Hab, app_assoc. reflexivity.
         -- lia.
       * destruct Ho as (Hnil & Hco & Hex & Hnd). repeat split; auto.
         rewrite Hab, app_assoc. exact Hnil.
-  - destruct acc as [|a acc'].
+  - destruct Hs as (Hs & HSP1 & HSD1). destruct acc as [|a acc'].
     + inversion H; subst o st'; clear H. cbn [abuf ablen abpos consumed exhausted nph nacc asrc].
       repeat split; auto.
     + inversion H; subst o st'; clear H. unfold pending, need. cbn [abuf ablen abpos consumed exhausted nph nacc asrc].
@@ -98,10 +114,10 @@ Lemma source_next_full : forall st o st', AInv st -> source_next S nxt cs F st =
   | None => pending st = [] /\ pending st' = [] /\ exhausted st' = true /\ need st' = 0
   end.
 Proof.
-  intros st o st' HI H. destruct HI as (Hl & Hp & Hc & Hb & He & Hm & HF).
+  intros st o st' HI H. destruct HI as (Hl & Hp & Hc & Hb & He & Hm & HF & HSP & HSD).
   unfold source_next in H. destruct (nph S st) eqn:Eph.
-  - apply norm_loop_spec in H; [|specialize (Hm eq_refl); lia].
-    destruct H as (Hb' & Hl' & Hp' & Ho).
+  - apply norm_loop_spec in H; [|specialize (Hm eq_refl); lia|exact HSP].
+    destruct H as (Hb' & Hl' & Hp' & HSP' & HSD' & Ho).
     assert (Hpd : pending st = nacc S st ++ sabs (asrc st)) by (unfold pending; rewrite Eph; reflexivity).
     assert (Hnd : need st = Datatypes.S (smeas (asrc st))) by (unfold need; rewrite Eph; reflexivity).
     specialize (Hm eq_refl).
@@ -111,10 +127,11 @@ Proof.
         by (rewrite Hpd, Hpe, app_length; reflexivity).
       split; [|repeat split; auto; try congruence; lia].
       unfold AInv. rewrite Hb', Hl', Hp', Hco, Hex.
-      split; [exact Hl|]. split; [exact Hp|]. split; [lia|]. split; [lia|]. split; [split|split; [|exact HF]].
+      split; [exact Hl|]. split; [exact Hp|]. split; [lia|]. split; [lia|]. split; [split|].
       * intros Hx. apply He in Hx. discriminate.
       * intros Hx. contradiction.
-      * intros Hr. unfold need in Hne. rewrite Hr in Hne. lia.
+      * split; [|split; [exact HF|split; [exact HSP'|exact HSD']]].
+        intros Hr. unfold need in Hne. rewrite Hr in Hne. lia.
     + destruct Ho as (Hnil & Hco & Hex & Hndone).
       assert (Hp0 : pending st' = []) by (unfold pending; rewrite Hndone; reflexivity).
       assert (Hn0 : need st' = 0) by (unfold need; rewrite Hndone; reflexivity).
@@ -122,6 +139,7 @@ Proof.
       unfold AInv. rewrite Hb', Hl', Hp', Hco, Hp0. rewrite Hpd, Hnil in Hc.
       repeat split; auto. rewrite Hndone. discriminate.
   - inversion H; subst o st'; clear H.
+    assert (HSD0 : SD (asrc st)) by (apply HSD; discriminate).
     unfold AInv, pending, need in *. cbn [abuf ablen abpos consumed exhausted nph nacc asrc].
     rewrite Eph in *. repeat split; auto. discriminate.
   - inversion H; subst o st'; clear H.
@@ -161,30 +179,30 @@ Proof. reflexivity. Qed.
 
 Lemma need_0_pending : forall st, need st = 0 -> pending st = [].
 Proof.
-  clear cs_pos.
+  clear cs_pos HBF.
   intros st H. unfold need, pending in *. destruct (nph S st); [discriminate|reflexivity|reflexivity].
 Qed.
 
-Lemma need_le_F : forall st, AInv st -> need st + 2 <= F.
+Lemma need_le_F : forall st, AInv st -> need st + 2 <= B.
 Proof.
-  clear cs_pos.
-  intros st (_ & _ & _ & _ & _ & Hm & HF). unfold need. destruct (nph S st); [|lia|lia].
+  clear cs_pos HBF.
+  intros st (_ & _ & _ & _ & _ & Hm & HF & HSP & HSD). unfold need. destruct (nph S st); [|lia|lia].
   specialize (Hm eq_refl). lia.
 Qed.
 
 Lemma buffered_len : forall st, AInv st -> length (skipn (abpos st) (abuf st)) = ablen st - abpos st.
-Proof. clear cs_pos. intros st (Hl & _). rewrite skipn_length. lia. Qed.
+Proof. clear cs_pos HBF. intros st (Hl & _). rewrite skipn_length. lia. Qed.
 
 Lemma aabs_length : forall st, AInv st ->
   length (aabs st) = (ablen st - abpos st) + length (pending st).
 Proof.
-  clear cs_pos.
+  clear cs_pos HBF.
   intros st HI. unfold aabs. rewrite app_length, buffered_len by exact HI. reflexivity.
 Qed.
 
 Lemma aabs_length_le : forall st, AInv st -> length (aabs st) <= T.
 Proof.
-  clear cs_pos.
+  clear cs_pos HBF.
   intros st HI. rewrite aabs_length by exact HI. destruct HI as (_ & _ & Hc & Hb & _). lia.
 Qed.
 
@@ -192,16 +210,16 @@ Qed.
 Lemma AInv_set_buf : forall st b l p, AInv st -> l = length b -> p <= l -> l - p <= consumed st ->
   AInv (set_buf S st b l p).
 Proof.
-  clear cs_pos.
-  intros st b l p (Hl & Hp & Hc & Hb & He & Hm & HF) Hlb Hpl Hco.
+  clear cs_pos HBF.
+  intros st b l p (Hl & Hp & Hc & Hb & He & Hm & HF & HSP & HSD) Hlb Hpl Hco.
   unfold AInv. rewrite pending_set_buf. cbn [set_buf abuf ablen abpos consumed exhausted nph asrc].
   repeat split; auto; apply He.
 Qed.
 
 Lemma AInv_set_pos : forall st p, AInv st -> abpos st <= p -> p <= ablen st -> AInv (set_pos S st p).
 Proof.
-  clear cs_pos.
-  intros st p (Hl & Hp & Hc & Hb & He & Hm & HF) Hlo Hhi.
+  clear cs_pos HBF.
+  intros st p (Hl & Hp & Hc & Hb & He & Hm & HF & HSP & HSD) Hlo Hhi.
   unfold AInv. rewrite pending_set_pos. cbn [set_pos abuf ablen abpos consumed exhausted nph asrc].
   repeat split; auto; try lia; apply He.
 Qed.
@@ -210,8 +228,8 @@ Lemma trim_spec : forall st, AInv st ->
   AInv (trim_buffer S st) /\ aabs (trim_buffer S st) = aabs st /\
   abpos (trim_buffer S st) = 0 /\ need (trim_buffer S st) = need st.
 Proof.
-  clear cs_pos.
-  intros st HI. pose proof HI as (Hl & Hp & Hc & Hb & He & Hm & HF). unfold trim_buffer.
+  clear cs_pos HBF.
+  intros st HI. pose proof HI as (Hl & Hp & Hc & Hb & He & Hm & HF & HSP & HSD). unfold trim_buffer.
   split; [|split; [|split]]; try reflexivity.
   apply AInv_set_buf; [exact HI| rewrite skipn_length; lia | lia | lia].
 Qed.
@@ -289,13 +307,13 @@ Definition gmeas (w : wgen) (st : astate S) : nat :=
 
 Lemma buffer_empty : forall st, AInv st -> abpos st = ablen st -> skipn (abpos st) (abuf st) = [].
 Proof.
-  clear cs_pos.
+  clear cs_pos HBF.
   intros st (Hl & _) Hp. apply skipn_all2. lia.
 Qed.
 
 Lemma gmeas_0 : forall w st, AInv st -> GInv w st -> gmeas w st = 0 -> aabs st = [].
 Proof.
-  clear cs_pos.
+  clear cs_pos HBF.
   intros w st HI HG H0. unfold gmeas in H0. destruct w; try lia. cbn [GInv] in HG.
   unfold aabs. rewrite buffer_empty by assumption. rewrite need_0_pending by lia. reflexivity.
 Qed.
@@ -305,7 +323,7 @@ Lemma rest_step : forall st, AInv st ->
   AInv (set_pos S st (ablen st)) /\
   aabs st = firstn (ablen st - abpos st) (skipn (abpos st) (abuf st)) ++ aabs (set_pos S st (ablen st)).
 Proof.
-  clear cs_pos.
+  clear cs_pos HBF.
   intros st HI. pose proof HI as (Hl & Hp & _).
   split; [apply AInv_set_pos; [exact HI|lia|lia]|].
   unfold aabs. rewrite pending_set_pos. cbn [set_pos abuf abpos].
@@ -405,7 +423,7 @@ Qed.
 Lemma prepend_spec : forall st x, AInv st -> length x + (ablen st - abpos st) <= consumed st ->
   AInv (prepend_buffer S st x) /\ aabs (prepend_buffer S st x) = x ++ aabs st.
 Proof.
-  clear cs_pos.
+  clear cs_pos HBF.
   intros st x HI Hx. pose proof HI as (Hl & Hp & _). unfold prepend_buffer.
   destruct (Nat.ltb_spec (abpos st) (ablen st)) as [Hlt|Hge]; cbv zeta.
   - split.
@@ -491,14 +509,14 @@ Qed.
 (* ------------------------------------------------------------------ 6. tell, eof *)
 Lemma atell_spec : forall st, AInv st -> atell S st + length (aabs st) = T.
 Proof.
-  clear cs_pos.
+  clear cs_pos HBF.
   intros st HI. rewrite aabs_length by exact HI. unfold atell.
   destruct HI as (_ & _ & Hc & Hb & _). lia.
 Qed.
 
 Lemma aeof_sound : forall st, AInv st -> aeof S st = true -> aabs st = [].
 Proof.
-  clear cs_pos.
+  clear cs_pos HBF.
   intros st HI H. unfold aeof in H. apply andb_true_iff in H as [Hex Heq].
   apply Nat.eqb_eq in Heq. unfold aabs. rewrite buffer_empty by (auto; lia).
   destruct HI as (_ & _ & _ & _ & He & _). apply He in Hex. unfold pending. rewrite Hex. reflexivity.
@@ -527,6 +545,55 @@ Qed.
 
 End AsyncProofs.
 
+(* ================================================================== the unconditional contract *)
+(* the statements for a source that conforms in every state (the top-level reader): SP and SD
+   trivial, B = F *)
+Definition TrueP {S : Type} (_ : S) : Prop := True.
+
+Definition AInv_total (S : Type) (sabs : S -> bytes) (smeas : S -> nat) (F T : nat)
+  : astate S -> Prop := AInv S sabs smeas TrueP TrueP F T.
+
+Lemma Hnxt_total : forall (S : Type) (nxt : S -> option bytes * S) (sabs : S -> bytes)
+  (smeas : S -> nat),
+  (forall s, match nxt s with
+             | (Some c, s') => sabs s = c ++ sabs s' /\ smeas s' < smeas s
+             | (None, s') => sabs s = []
+             end) ->
+  forall s, @TrueP S s ->
+            match nxt s with
+            | (Some c, s') => sabs s = c ++ sabs s' /\ smeas s' < smeas s /\ @TrueP S s'
+            | (None, s') => sabs s = [] /\ @TrueP S s' /\ @TrueP S s'
+            end.
+Proof.
+  intros S nxt sabs smeas H s _. specialize (H s). destruct (nxt s) as [[c|] s'].
+  - destruct H as [H1 H2]. repeat split; assumption.
+  - repeat split; assumption.
+Qed.
+
+Lemma a_refine_op_basic_total : forall (S : Type) (nxt : S -> option bytes * S)
+  (sabs : S -> bytes) (smeas : S -> nat) (cs F T : nat),
+  0 < cs ->
+  (forall s, match nxt s with
+             | (Some c, s') => sabs s = c ++ sabs s' /\ smeas s' < smeas s
+             | (None, s') => sabs s = []
+             end) ->
+  forall st o r st', basic_op o = true -> AInv_total S sabs smeas F T st ->
+  arun_op S nxt cs true F st o = (r, st') ->
+  sp_op cs o (aabs S sabs st) = (r, aabs S sabs st') /\ AInv_total S sabs smeas F T st'.
+Proof.
+  intros S nxt sabs smeas cs F T Hcs H.
+  exact (a_refine_op_basic S nxt sabs smeas TrueP TrueP cs F F T Hcs (le_n F)
+           (Hnxt_total S nxt sabs smeas H)).
+Qed.
+
+Lemma atell_spec_total : forall (S : Type) (sabs : S -> bytes) (smeas : S -> nat) (F T : nat)
+  (st : astate S), AInv_total S sabs smeas F T st -> atell S st + length (aabs S sabs st) = T.
+Proof. intros S sabs smeas F T. exact (atell_spec S sabs smeas TrueP TrueP F T). Qed.
+
+Lemma aeof_sound_total : forall (S : Type) (sabs : S -> bytes) (smeas : S -> nat) (F T : nat)
+  (st : astate S), AInv_total S sabs smeas F T st -> aeof S st = true -> aabs S sabs st = [].
+Proof. intros S sabs smeas F T. exact (aeof_sound S sabs smeas TrueP TrueP F T). Qed.
+
 (* ================================================================== the list-of-chunks source *)
 Lemma chunks_next_good : forall s : list bytes,
   match chunks_next s with
@@ -544,7 +611,7 @@ Definition obs_ok (a s : obs) : Prop :=
 
 Lemma a_refine_run_basic : forall cs F T, 0 < cs -> forall ops (st : astate (list bytes)) t,
   forallb basic_op ops = true ->
-  AInv (list bytes) (@concat N) (@length bytes) F T st ->
+  AInv_total (list bytes) (@concat N) (@length bytes) F T st ->
   t + length (aabs (list bytes) (@concat N) st) = T ->
   Forall2 obs_ok (async_run cs true F (A0 st) (flat ops))
                  (sp_run cs [] [t] (aabs (list bytes) (@concat N) st) (flat ops)).
@@ -554,20 +621,30 @@ Proof.
   unfold flat. cbn [map async_run async_step sp_run view]. fold (flat ops).
   destruct (arun_op (list bytes) nx0 cs true F st o) as [r st'] eqn:Erun.
   unfold nx0 in Erun.
-  destruct (a_refine_op_basic (list bytes) chunks_next (@concat N) (@length bytes) cs F T Hcs
+  destruct (a_refine_op_basic_total (list bytes) chunks_next (@concat N) (@length bytes) cs F T Hcs
               chunks_next_good st o r st' Hbo HI Erun) as [Hsp HI'].
   rewrite Hsp. cbn [astack_obs map last].
   pose proof (sp_op_suffix cs o _ _ _ Hbo Hsp) as Hsuf.
-  pose proof (atell_spec (list bytes) (@concat N) (@length bytes) F T st' HI') as Htell.
+  pose proof (atell_spec_total (list bytes) (@concat N) (@length bytes) F T st' HI') as Htell.
   remember (aabs (list bytes) (@concat N) st) as v eqn:Hv.
   remember (aabs (list bytes) (@concat N) st') as v' eqn:Hv'.
   assert (Hlen : length v' <= length v).
   { rewrite Hsuf at 1. rewrite skipn_length. lia. }
   constructor.
   - unfold obs_ok. cbn [o_res o_tell o_end]. split; [reflexivity|]. split; [lia|].
-    intros He. apply (aeof_sound (list bytes) (@concat N) (@length bytes) F T st' HI') in He.
+    intros He. apply (aeof_sound_total (list bytes) (@concat N) (@length bytes) F T st' HI') in He.
     rewrite <- Hv' in He. rewrite He. reflexivity.
   - rewrite <- Hsuf. rewrite Hv'. apply IH; [exact Hbs|exact HI'|]. rewrite <- Hv'. lia.
+Qed.
+
+(* the initial state of the top-level reader *)
+Lemma ainit_AInv : forall (chunks : list bytes) B, length chunks + 3 <= B ->
+  AInv (list bytes) (@concat N) (@length bytes) TrueP TrueP B (length (concat chunks))
+       (ainit (list bytes) chunks).
+Proof.
+  intros chunks B HB. unfold AInv, pending, ainit, TrueP.
+  cbn [abuf ablen abpos consumed exhausted nph nacc asrc length app].
+  repeat split; try lia; try discriminate.
 Qed.
 
 Lemma a_refine_history_basic : forall cs F chunks ops, 0 < cs -> length chunks + 3 <= F ->
@@ -579,7 +656,6 @@ Proof.
   rewrite firstn_all.
   change (concat chunks) with (aabs (list bytes) (@concat N) (ainit (list bytes) chunks)).
   apply (a_refine_run_basic cs F (length (concat chunks)) Hcs ops (ainit (list bytes) chunks) 0 Hb).
-  - unfold AInv, pending, ainit. cbn [abuf ablen abpos consumed exhausted nph nacc asrc length app].
-    repeat split; try lia; try discriminate.
+  - apply ainit_AInv. exact HF.
   - reflexivity.
 Qed.
